@@ -320,8 +320,21 @@ class Engine:
                             cur = self.emit(Ev("store", b, si, place=pe, value=e, line=s.get("line")), cur)
                         val = dict(cur.val)
                     else:
-                        # partial write to a local aggregate: forget its value
-                        val.pop(d["l"], None)
+                        # partial write to a local aggregate: one field of a known aggregate is replaced (an iterator
+                        # struct stepping its own state field); anything else forgets the local's value
+                        done = False
+                        if len(d["p"]) == 1 and isinstance(d["p"][0], dict) and "f" in d["p"][0] and d["l"] in self.bi.dyn:
+                            old_v = val.get(d["l"])
+                            if old_v is not None and old_v[0] == "agg" and old_v[1] in ("adt", "tuple"):
+                                fname = str(d["p"][0].get("n", d["p"][0]["f"]))
+                                old_f = dict(old_v[5]).get(fname)
+                                # a field stepped from its own previous value (`self.rest = &self.rest[1..]`) would grow
+                                # without bound: such a local is forgotten as before
+                                if old_f is not None and not (old_f[0] not in ("const", "agg") and mentions(e, lambda x: x == old_f)) and depth(e) < 40:
+                                    val[d["l"]] = old_v[:5] + (tuple((n_, e if n_ == fname else x) for n_, x in old_v[5]),)
+                                    done = True
+                        if not done:
+                            val.pop(d["l"], None)
             elif s["k"] == "setdiscr":
                 val.pop(s["dst"]["l"], None)
         cur = cur.replace(val=fz(val))
@@ -511,6 +524,8 @@ class Engine:
         if k == "tblwrite":
             if ev.box is not None:
                 emp = frozenset((kb, v) for kb, v in st.emp if kb[0] == "loc" or (kb != ev.box and st.distinct(kb, ev.box)))
+                if ev.get("op") == "clear":
+                    emp = emp | {(ev.box, True)}      # `clear()` leaves the table empty
             else:
                 # a write to a local container (trace map / visited set): link tables are unaffected
                 emp = frozenset((kb, v) for kb, v in st.emp if kb[0] != "loc")
@@ -1087,7 +1102,7 @@ class Engine:
             bp = box_part(args[0]) if args else None
             if bp is not None:
                 if bp[1] in ("value", "links"):
-                    A("moveout", box=bp[0], field=bp[1], how=d.rsplit("::", 1)[1], res=res)
+                    A("moveout", box=bp[0], field=bp[1], how=d.rsplit("::", 1)[1], res=res, put=args[1] if d.endswith("::replace") and len(args) > 1 else None)
                 else:
                     A("set", box=bp[0], field=bp[1], value=("unk", d), cls="other:" + d)
             elif args and d.startswith("core::mem::"):
